@@ -23,6 +23,7 @@ type Profile struct {
 	OnlyKinds   []string
 	ExcludeKind map[string]bool // type kinds avoided by construction (open findings)
 	LongNames   bool            // keep interface bodies >= 21 bytes (finding #6) - until fixed
+	ErrHeavy    bool            // favour error results, error converters, error getters and error hooks (C07)
 }
 
 var fieldNames = []string{"ID", "Name", "Status", "Val", "Cat", "Score", "Tags", "Items", "Nested", "Count", "Flag", "Data", "Id", "id", "name", "NAME", "val", "Ptr", "Extra", "Zed"}
@@ -366,6 +367,33 @@ func knownMembers(home string, forSource bool) []member {
 	return ms
 }
 
+// errGetterMembers lists (T, error) getters usable as the last segment of a :map source.
+func errGetterMembers(s StructDecl) []member {
+	var ms []member
+	for _, g := range s.Getters {
+		if !g.RetErr {
+			continue
+		}
+		th := g.Type
+		for _, f := range s.Fields {
+			if f.Name == g.Field {
+				th = f.Home
+			}
+		}
+		ms = append(ms, member{g.Name + "()", th})
+	}
+	for _, f := range s.Fields {
+		if s.Pkg == "ext" && !isExportedName(f.Name) || f.Name == "" {
+			continue
+		}
+		switch f.Home {
+		case "LInner", "*LInner", "ext.Inner", "*ext.Inner":
+			ms = append(ms, member{f.Name + ".E()", "int"})
+		}
+	}
+	return ms
+}
+
 func structMembers(s StructDecl, forSource bool, nested bool) []member {
 	var ms []member
 	for _, f := range s.Fields {
@@ -474,6 +502,11 @@ func GenNotations(t *rapid.T, m *Method, src, dst StructDecl, uf *UserFuncs, pf 
 	}
 	dms := structMembers(to, false, true)
 	sms := structMembers(from, true, true)
+	if pf.ErrHeavy {
+		egs := errGetterMembers(from)
+		sms = append(sms, egs...)
+		sms = append(sms, egs...)
+	}
 	if len(dms) == 0 || len(sms) == 0 {
 		return
 	}
@@ -513,6 +546,10 @@ func GenNotations(t *rapid.T, m *Method, src, dst StructDecl, uf *UserFuncs, pf 
 		case k < 8:
 			s := rapid.SampledFrom(sms).Draw(t, "csrc")
 			retErr := m.RetErr && rapid.IntRange(0, 1).Draw(t, "cerr") == 0
+			if pf.ErrHeavy {
+				// also on methods without error result: such a converter must not be wired in (C07)
+				retErr = rapid.IntRange(0, 3).Draw(t, "cerrHeavy") != 0
+			}
 			ptrArg := !strings.HasPrefix(s.Home, "*") && !strings.HasSuffix(s.Path, "()") && rapid.IntRange(0, 5).Draw(t, "cptr") == 0
 			name := uf.Converter(s.Home, d.Home, retErr, ptrArg)
 			if s.Path == d.Path && rapid.Bool().Draw(t, "omitDst") {
@@ -572,6 +609,9 @@ func GenProg(t *rapid.T, pf Profile) *Prog {
 			if pf.Shapes {
 				GenShape(t, &m, pr.s.Pkg == "home")
 			}
+			if pf.ErrHeavy && rapid.IntRange(0, 4).Draw(t, "errHeavy") != 0 {
+				m.RetErr = true
+			}
 			if pf.Notations {
 				GenNotations(t, &m, pr.s, pr.d, uf, pf)
 			}
@@ -584,6 +624,9 @@ func GenProg(t *rapid.T, pf Profile) *Prog {
 					dptr := rapid.IntRange(0, 3).Draw(t, "hdptr") != 0
 					sptr := rapid.IntRange(0, 3).Draw(t, "hsptr") != 0
 					herr := m.RetErr && rapid.Bool().Draw(t, "herr")
+					if pf.ErrHeavy && m.RetErr {
+						herr = rapid.IntRange(0, 3).Draw(t, "herrHeavy") != 0
+					}
 					var ex []Param
 					if len(m.Extras) > 0 && rapid.Bool().Draw(t, "hextras") {
 						ex = m.Extras
